@@ -12,9 +12,8 @@ Definition w1 (p : pc) : nat :=
   | WIdle _ | WWait _ | WWoken _ _ => 2
   | WRun _ _ => 3
   | WDrop _ | RWait | RWoken => 1
-  | GIdle => 2
-  | GHold => 1
-  | QMid => 1
+  | GIdle | QIdle => 2
+  | GHold | QMid => 1
   | _ => 0
   end.
 
@@ -100,10 +99,10 @@ Proof.
     pose proof (nth_na_other on_avail _ _ _ E2 eq_refl) as E3.
     pose proof (nth_na_other on_sd _ _ _ E3 eq_refl) as E4. left.
     simpl. pose proof (sumf_upd w1 _ _ _ GDone E4) as U. rewrite !sumf_w1_na in U. simpl in U. lia.
-  - (* LPsd1: impossible, the pool was removed from the group *)
+  - (* LPsd1 *)
     destruct (glock s); [discriminate|].
     destruct (nth_error (thr s) i) as [[]|] eqn:E; try discriminate.
-    rewrite (i_gsd_reg s I Hg) in H. discriminate.
+    inversion H; subst s'; clear H. left_w1.
   - (* LPsd2 *)
     destruct (nth_error (thr s) i) as [[]|] eqn:E; try discriminate.
     inversion H; subst s'; clear H.
